@@ -934,6 +934,51 @@ def r9(F, R, P):
 
 
 
+def r10(F, R):
+    """Arrow: the column builder and the schema field agree on scalar vs. list for every shape."""
+    R.rule("C14-R10", "Arrow backend: ArrowBuilder::new chooses the plain (Scalar) or the list (Tensor) builder by the *rank* of the shape (is_empty / len of the shape "
+                      "vector), and create_field_with_shape chooses the plain or the list field by the rank of the dims: a test of the element count would put "
+                      "shapes like [1] or [1, 1] into a plain column under a list-typed schema field (RecordBatch::try_new fails, no trace is returned)")
+    def rank_test(b, variants):
+        """The switch that decides between building `variants[0]` and `variants[1]`; -> (is a rank test?, text)."""
+        blocks = {}
+        for bi, blk in enumerate(b.blocks):
+            for st in blk["stmts"]:
+                if st["k"] == "assign" and st["rv"]["k"] == "agg" and st["rv"].get("ak") == "adt" and st["rv"].get("variant") in variants:
+                    blocks.setdefault(st["rv"]["variant"], bi)
+        if len(blocks) != 2:
+            return None
+        a_, c_ = [blocks[v] for v in variants]
+        da = {x for (x, _s) in b.control_deps_trans(a_)}
+        dc = {x for (x, _s) in b.control_deps_trans(c_)}
+        ea = {(x, s_) for (x, s_) in b.control_deps_trans(a_)}
+        ec = {(x, s_) for (x, s_) in b.control_deps_trans(c_)}
+        deciding = [x for x in (da & dc) if {s_ for (y, s_) in ea if y == x} != {s_ for (y, s_) in ec if y == x}]
+        if len(deciding) != 1:
+            return None
+        t = b.blocks[deciding[0]]["term"]
+        v = b.value(t["discr"])
+        txt = vt_str(v)
+        calls = [strip_generics(n[1]).split("::")[-1] for n in vt_walk(v) if n[0] == "call"]
+        is_rank = bool(calls) and all(c in ("is_empty", "len", "deref", "as_slice", "borrow", "as_ref") for c in calls) and any(c in ("is_empty", "len") for c in calls)
+        return is_rank, txt, loc(t.get("span"))
+    n = 0
+    for b in F.inherent_methods("ArrowBuilder", "new"):
+        r_ = rank_test(b, ("Scalar", "Tensor"))
+        key = b.path + ":builder-kind"
+        site = "%s @%s" % (b.path, b.loc())
+        n += 1
+        if r_ is None:
+            R.bad("C14-R10", key, site, "cannot find the decision between the Scalar and the Tensor builder")
+        elif r_[0]:
+            R.ok("C14-R10", key, site, "builder kind decided by %s" % r_[1][:80])
+        else:
+            R.bad("C14-R10", key, "%s @%s" % (b.path, r_[2]), "builder kind is decided by %s, not by the rank of the shape: a shape of ones gets a plain column under a list-typed field" % r_[1][:120])
+    if n == 0 and "arrow" in C10f(F):
+        R.missing("C14-R10", "ArrowBuilder::new")
+
+
+
 def run(F, R, config="all"):
     r1(F, R)
     r2(F, R)
@@ -945,3 +990,11 @@ def run(F, R, config="all"):
     r7(F, R)
     r8(F, R)
     r9(F, R, P)
+    r10(F, R)
+    # a write whose failure is dropped leaves fill values where recorded draws should be, without an error: no unread Result in the backends
+    from . import c13
+    def _storage_only(sub):
+        c13.r6(F, sub)
+        sub.obligations = [o for o in sub.obligations if "storage::" in o["site"] or o["ok"]]
+    K.borrow_rule(R, _storage_only, "C14-R11", "no storage backend drops a Result without looking at it (C13-R6 analysis): a chunk or row whose write failed is reported, "
+                  "not silently missing from the trace", only_rules={"C13-R6"})
